@@ -274,6 +274,8 @@ struct SCTr : public sigc::trackable
   long cm(long& x, long y) const { x += 30; return x - y; }
 };
 static long sc_fp(long& x, std::string& s) { x += 40; s += "77"; return x; }
+static long& sc_ref(long& x) { return x; }
+static long& sc_ref2(long& x, long) { return x; }
 static void fixed_signal_connect()
 {
   std::string out;
@@ -316,6 +318,28 @@ static void fixed_signal_connect()
     auto addr = [](auto&& x) -> const void* { return static_cast<const void*>(&x); };   // also accepts a copy (prvalue)
     out += " R:ref=" + std::to_string(addr(f1()) == &o) + ",cref=" + std::to_string(addr(f2()) == &co)
          + ",hideref=" + std::to_string(addr(h1(7)) == &o) + ",hidecref=" + std::to_string(addr(h2(7)) == &co);
+  }
+  {
+    // a raw pointer to member function used as a functor (functor_trait -> mem_functor): the object is
+    // the first argument, reference parameters stay references
+    SCTr t;
+    sigc::slot<long(SCTr&, long&, long)> s = &SCTr::m;
+    long x = 2; long r = s(t, x, 5);
+    out += " P:x=" + std::to_string(x) + ",r=" + std::to_string(r) + ",seen=" + std::to_string(t.seen);
+    auto b = sigc::bind(&SCTr::m, 7L);
+    x = 1; r = b(t, x);
+    out += ",bx=" + std::to_string(x) + ",br=" + std::to_string(r) + ",bseen=" + std::to_string(t.seen);
+    sigc::slot<long(const SCTr&, long&, long)> cs = &SCTr::cm;
+    x = 2; r = cs(t, x, 5);
+    out += ",cx=" + std::to_string(x) + ",cr=" + std::to_string(r);
+  }
+  {
+    // ptr_fun of a function returning a reference returns that reference, alone and under adaptors
+    long x = 3;
+    auto addr = [](auto&& v) -> const void* { return static_cast<const void*>(&v); };
+    auto pf = sigc::ptr_fun(&sc_ref);
+    out += " Q:pf=" + std::to_string(addr(pf(x)) == &x) + ",hide=" + std::to_string(addr(sigc::hide(pf)(x, 1)) == &x)
+         + ",bind=" + std::to_string(addr(sigc::bind(sigc::ptr_fun(&sc_ref2), 4L)(x)) == &x);
   }
   printf("fixed sigconn %s\n", out.c_str());
   fflush(stdout);
